@@ -210,6 +210,7 @@ func init() {
 	}
 
 	gens["C05"] = func(g *G) {
+		g.emit("tbl idxtopath")
 		maxH := g.n(12, 16)
 		for h := 0; h <= maxH; h++ {
 			for idx := 0; idx < 1<<uint(h+1)-1; idx++ {
